@@ -17,6 +17,12 @@ LEVEL = 'model_checking'
 
 MENU = ['ok200', 'r301same', 'r302fresh', 'r307prev', 'r303noloc', 'r308badloc', 's401',
         's500', 'close', 'r303fresh', 'r308same']
+# Location spellings that lead back to the URL just requested; used by the "always X" jobs
+# ('@' = the request target)
+SELF_SPELLINGS = {'empty': '', 'frag': '#again', 'query': '?', 'dot': '.', 'upper':
+                  'HTTP://A.TEST:80@', 'slashes': '//a.test@', 'space': ' @ '}
+EXTRA = ['r302empty', 'r301frag', 'r302query', 'r307dot', 'r308upper', 'r303slashes',
+         'r302space']
 START = '/s'
 
 
@@ -75,6 +81,9 @@ def run(params, chooser, memo=None):
             return {'redirect': [code, None]}
         if ans.endswith('badloc'):
             return {'redirect': [code, 'http://[bad']}
+        for suffix, loc in SELF_SPELLINGS.items():
+            if ans.endswith(suffix):
+                return {'redirect': [code, loc.replace('@', req['target'])]}
         raise KeyError(ans)
 
     argv = ['http://a.test' + START] + (['-r'] if params.get('robots') else ['--no-robots']) + [
@@ -201,6 +210,11 @@ def jobs(tier, seed):
         js.append(dict(params=dict(max_redirect=20, tries=20, depth=0, always=ans,
                                    horizon=150000), prefix=[]))
         js.append(dict(params=dict(max_redirect=3, tries=4, depth=0, always=ans), prefix=[]))
+    for ans in EXTRA:
+        js.append(dict(params=dict(max_redirect=3, tries=3, depth=0, always=ans,
+                                   menu=MENU + EXTRA), prefix=[]))
+        js.append(dict(params=dict(max_redirect=1, tries=2, depth=3,
+                                   menu=['ok200', ans, 'r302fresh', 's500']), prefix=[]))
     # robots checking on: the adversarial answers also hit /robots.txt
     for ans in ('s500', 'close', 'r301same', 's401', 'r307prev', 'r303noloc'):
         js.append(dict(params=dict(max_redirect=2, tries=3, depth=0, always=ans, robots=True),
